@@ -971,8 +971,8 @@ def rule_narrow(cx, tier):
     n_signed = _signed_operands(cx, r, caller_bounds)
     r.analysed = {"chunk_size_sites": n_chunks, "functions_with_sites": n_fn, "sites": n_sites, "by_kind": per_kind, "signed_operand_sites": n_signed,
                   "caller_established_bounds": len(caller_bounds), "reviewed_sites_used": len(used_reviews)}
-    r.floor("narrowing casts and byte arithmetic sites in koto_bytecode", n_sites, 40)
-    r.floor("writer sites of signed-byte operands", n_signed, 12)
+    r.floor("narrowing casts and byte arithmetic sites in koto_bytecode", n_sites, 30)
+    r.floor("writer sites of signed-byte operands", n_signed, 9)
     return r
 
 
@@ -1662,8 +1662,8 @@ def rule_vm_regs(cx, tier):
     r.analysed = {"checked_conversions_of_register_count": n_conv, "byte_sites": n_sites,
                   "CallInfo_producers": n_prod, "reviewed_sites_used": len(used), "reviewed_table": len(REVIEWED_VM)}
     r.floor("checked conversions (u8::try_from) of the frame's register count", n_conv, 1)
-    r.floor("CallInfo construction sites", n_prod, 5)
-    r.floor("byte arithmetic sites in koto_runtime", n_sites, 10)
+    r.floor("CallInfo construction sites", n_prod, 3)
+    r.floor("byte arithmetic sites in koto_runtime", n_sites, 7)
     return r
 
 
@@ -1810,7 +1810,7 @@ def rule_cursor(cx, tier):
                                       f"past {bound} (line {aline}): calling this on an exhausted iterator panics "
                                       f"'attempt to subtract with overflow'", fn.file, loc_line(t[6])))
     r.analysed = {"iterator_types": n_types, "cursor_bound_pairs_that_can_overshoot": n_over}
-    r.floor("iterator types in koto_runtime", n_types, 30)
+    r.floor("iterator types in koto_runtime", n_types, 22)
     r.floor("cursor/bound pairs that can overshoot", n_over, 2)
     return r
 
@@ -1831,11 +1831,16 @@ def rule_stale_index(cx, tier):
     F = cx.F
     n_loops = 0
     n_idx = 0
+    # private helpers of the runtime that make the callback on their caller's behalf (`call_predicate(vm, &f, x)`)
+    wrappers = {g.name for g in F.fns.values() if g.crate.uname == "koto_runtime" and not g.derived and g.vis != "pub"
+                and g.kind != "Closure" and not g.qual.startswith("koto_runtime::KotoVm::")
+                and any((c.short or c.pretty or "").rsplit("::", 1)[-1] in REENTRANT for c in g.calls())}
     for fn in F.fns.values():
         if fn.derived or fn.crate.uname != "koto_runtime":
             continue
         calls = list(fn.calls())
-        re_bbs = {c.bb for c in calls if (c.short or c.pretty or "").rsplit("::", 1)[-1] in REENTRANT}
+        re_bbs = {c.bb for c in calls if (c.short or c.pretty or "").rsplit("::", 1)[-1] in REENTRANT
+                  or (c.resolved in wrappers)}
         if not re_bbs:
             continue
         cfg = cx.cfg(fn)
@@ -1929,7 +1934,7 @@ def rule_stale_index(cx, tier):
                               f"key's entry", fn.file, c.line))
     r.analysed = {"loops_with_reentrant_calls": n_loops, "panicking_index_sites_in_them": n_idx,
                   "positional_map_operations": n_pos}
-    r.floor("loops with re-entrant calls in koto_runtime", n_loops, 20)
+    r.floor("loops with re-entrant calls in koto_runtime", n_loops, 15)
     r.floor("positional IndexMap operations in koto_runtime", n_pos, 3)
     return r
 
@@ -2024,5 +2029,5 @@ def rule_sign_index(cx, tier):
                                   f"`{_short(e)[:80]} as usize` without a lower bound of zero: a negative value becomes an "
                                   f"index near usize::MAX and the slice / index operation that uses it panics", fn.file, line))
     r.analysed = {"signed_to_usize_casts": n}
-    r.floor("signed -> usize casts in koto_runtime", n, 4)
+    r.floor("signed -> usize casts in koto_runtime", n, 3)
     return r
